@@ -6,6 +6,7 @@
 From stdpp Require Import gmap strings.
 From EV Require Import Base.Str Model.Value Model.Adapt Model.Keyspace Model.Reply Model.Prog.
 From EV Require Import Model.CmdList Model.CmdGeneric Model.CmdString Model.HashVal Model.CmdHash Model.CmdSet.
+From EV Require Model.CmdKeyspace.
 From EV Require Import Model.TableTypes Model.KeyFuncs.
 From EV Require Import Proofs.KeyspaceLemmas Proofs.ProgLemmas Proofs.KeyCover.
 Local Open Scope Z_scope.
@@ -306,4 +307,23 @@ Proof.
   - word 3%nat ltac:(unfold handle_srem).
   - word 2%nat ltac:(unfold handle_sunion).
   - word 3%nat ltac:(unfold handle_sunionstore).
+Qed.
+
+(** * TOUCH, OBJECTFREQ, OBJECTIDLETIME: no primitive at all.  RANDOMKEY is not in the class: its key
+    function reports no key and its reply depends on every key of the database (see the finding in
+    [Proofs/KeyCoverTheorems.v]). *)
+Definition keyless_scan (name : string) : bool := is_flush name || String.eqb name "randomkey".
+
+Lemma keyless_scan_flush name : keyless_scan name = false -> is_flush name = false.
+Proof. unfold keyless_scan. by intros [H _]%orb_false_iff. Qed.
+
+Lemma kc_keyspace cands name h argv :
+  CmdKeyspace.keyspace_handler cands name = Some h -> keyless_scan name = false ->
+  kx_within (key_extract name "" argv) (h argv).
+Proof.
+  unfold CmdKeyspace.keyspace_handler, keyless_scan. intros Hh Hf. revert argv Hh. handler_cases;
+    try (exfalso; revert Hf; vm_compute; discriminate).
+  - word 2%nat ltac:(unfold CmdKeyspace.handle_touch).
+  - word 3%nat ltac:(unfold CmdKeyspace.handle_objfreq).
+  - word 3%nat ltac:(unfold CmdKeyspace.handle_objidletime).
 Qed.
